@@ -89,7 +89,7 @@ _ENGINE_PAIRS = [("md_xl_h2o", "md_xl_h2o_b"), ("md_ksa_h2o", "md_ksa_h2o_b"), (
 def gen_cases(tier, seed):
     g = gen.rng("C15", tier)
     cases = []
-    nseq, nint, nthr = (10, 4, 3) if tier == "quick" else (260, 70, 30)
+    nseq, nint, nthr = (8, 4, 3) if tier == "quick" else (260, 70, 30)
     # --- interleavings (the tight-then-loose pair is always present)
     pairs = [(["g_am1_h2o_tight", "g_am1_nh3_loose"], "joint"), (["g_am1_h2o_tight", "g_pm6sp_h2s_sb1"], "fifo"),
              (["g_pm3_hcn_param", "g_am1_nh3_loose", "g_mndo_nh3_sb2"], "joint"),
@@ -117,7 +117,7 @@ def gen_cases(tier, seed):
         cases.append({"kind": "dictreuse", "steps": [{"job": a, "reuse": mode}, {"job": b, "reuse": mode},
                                                       {"job": b, "reuse": mode}]})
     # --- one MD engine / optimiser OBJECT used for two consecutive runs on fresh Molecule objects
-    ep = _ENGINE_PAIRS[:6] if tier == "quick" else _ENGINE_PAIRS + [(b, a) for a, b in _ENGINE_PAIRS[:5]]
+    ep = _ENGINE_PAIRS[:4] if tier == "quick" else _ENGINE_PAIRS + [(b, a) for a, b in _ENGINE_PAIRS[:5]]
     ep = _OPTION_ENGINE_PAIRS + ep + ([(b, a) for a, b in _OPTION_ENGINE_PAIRS] if tier == "thorough" else [])
     for a, b in ep:
         cases.append({"kind": "enginereuse", "steps": [{"job": a, "reuse": "engine"}, {"job": b, "reuse": "engine"}]})
@@ -130,6 +130,8 @@ def gen_cases(tier, seed):
     op = [("disp_h2o_dimer", "disp_ch2o_dimer"), ("disp_ch2o_dimer", "disp_h2o_dimer"), ("disp_h2o_dimer", "disp_batch"),
           ("disp_nh3_dimer", "disp_hcn_dimer"), ("pm3_h2o", "pm3_h2o_altparams"), ("pm3_h2o_altparams", "pm3_h2o"),
           ("am1_h2o_learned", "am1_h2o"), ("am1_dimer_cutoff", "disp_h2o_dimer"), ("am1_h2o_hfflag", "am1_h2o_b")]
+    if tier == "quick":
+        op = op[:7]
     if tier == "thorough":
         op += [(a, b) for a in J.DISP_JOBS for b in J.DISP_JOBS if a != b and (a, b) not in op]
         op += [(a, b) for a in J.OPTION_JOBS for b in ("am1_h2o", "pm3_h2o") if (a, b) not in op]
@@ -147,7 +149,7 @@ def gen_cases(tier, seed):
         cases.append({"kind": "threads", "steps": st})
     # --- random histories
     for i in range(nseq):
-        n = int(g.integers(1, 7 if tier == "quick" else 9))
+        n = int(g.integers(1, 6 if tier == "quick" else 9))
         steps = [_rand_step(g) for _ in range(n)]
         target = _OK_JOBS[int(g.integers(0, len(_OK_JOBS)))]
         modes = ["none", "dict", "engine"] if target in J.ENGINE_JOBS else ["none", "dict", "driver"]
